@@ -272,6 +272,32 @@ func RenderYAML(t any) []byte {
 	return b
 }
 
+// RenderYAMLQuotedKeys is RenderYAML with every mapping key written as a double-quoted scalar (what a
+// quote-everything emitter produces): block style, the first byte of the document is a quote.
+func RenderYAMLQuotedKeys(t any) []byte {
+	var n yaml3.Node
+	if err := n.Encode(t); err != nil {
+		panic(err)
+	}
+	var walk func(x *yaml3.Node)
+	walk = func(x *yaml3.Node) {
+		if x.Kind == yaml3.MappingNode {
+			for i := 0; i+1 < len(x.Content); i += 2 {
+				x.Content[i].Style = yaml3.DoubleQuotedStyle
+			}
+		}
+		for _, c := range x.Content {
+			walk(c)
+		}
+	}
+	walk(&n)
+	b, err := yaml3.Marshal(&n)
+	if err != nil {
+		panic(err)
+	}
+	return b
+}
+
 // Path addresses a node: string = map key, int = list index.
 type Path []any
 
